@@ -275,7 +275,19 @@ def exact_residual_norm(s, x):
     return float(m) * math.sqrt(sum(float(v / m) ** 2 for v in r))
 
 def norm2(v):
-    return float(np.linalg.norm(np.array(v, dtype=float))) if len(v) else 0.0
+    """2-norm; the plain numpy value wherever it is trustworthy (bit-identical to what this function always returned),
+    the scaled form max * sqrt(sum (v/max)^2) where the squares of the entries leave the f64 range (reference side of
+    the recorded finding f64-square-range: the reference must not repeat the defect)"""
+    if not len(v): return 0.0
+    with np.errstate(all='ignore'):
+        r = float(np.linalg.norm(np.array(v, dtype=float)))
+    if r == 0.0 or r == math.inf or r < 2.0 ** -480 or r > 2.0 ** 480:
+        a = [abs(float(t)) for t in v]
+        if any(t != t for t in a): return float("nan")
+        m = max(a)
+        if m == 0.0 or m == math.inf: return m
+        return m * math.sqrt(sum((t / m) ** 2 for t in a))
+    return r
 
 def all_finite(v):
     return all(math.isfinite(t) for t in v)
@@ -616,4 +628,81 @@ def split_seq(items, nsteps):
         pos += 4 + n
     if pos != len(items):
         raise ValueError("bad it.seq answer")
+    return out
+
+# ----------------------------------------------------------------------------- recorded finding f64-square-range (C08, C09)
+# Vector<f64>::norm_2 squares its entries without scaling (the C15 finding of the same key); the solvers measure ||b|| and
+# ||r|| with it, so a right-hand side with ||b|| < 2^-511 is taken for zero (Ok(0) with x untouched), one with
+# ||b|| > 2^512 gives inf / NaN, and the dot products of the recurrences leave the range likewise.  The key is decided
+# from the INPUT alone.
+F64_MIN_NORMAL_Q = Fraction(1, 2 ** 1022)
+F64_RANGE_END_Q = Fraction(2 ** 1024)
+KEY_SQUARE_RANGE = "f64-square-range"
+
+def _leaves_range(q):
+    """q: exact non-negative rational; non-zero and outside the normal f64 range [2^-1022, 2^1024)"""
+    return q != 0 and not (F64_MIN_NORMAL_Q <= q < F64_RANGE_END_Q)
+
+def exact_solution(s):
+    """the exact solution of A x = b over the rationals (list of Fractions), or None (non-square, singular, non-finite)"""
+    n = s.rows
+    if s.rows != s.cols or len(s.b) != n or n == 0: return None
+    vals = [v for (_, _, v) in s.trip] + list(s.b)
+    if not all(math.isfinite(v) for v in vals): return None
+    M = [[Fraction(0)] * (n + 1) for _ in range(n)]
+    for (i, j, v) in s.trip: M[i][j] += Fraction(v)
+    for i in range(n): M[i][n] = Fraction(s.b[i])
+    for c in range(n):
+        p = next((r for r in range(c, n) if M[r][c] != 0), None)
+        if p is None: return None
+        M[c], M[p] = M[p], M[c]
+        for r in range(c + 1, n):
+            if M[r][c] != 0:
+                f = M[r][c] / M[c][c]
+                for k in range(c, n + 1): M[r][k] -= f * M[c][k]
+    x = [Fraction(0)] * n
+    for i in range(n - 1, -1, -1):
+        x[i] = (M[i][n] - sum(M[i][k] * x[k] for k in range(i + 1, n))) / M[i][i]
+    return x
+
+def scale_out_of_range(s):
+    """True exactly when the INPUT has ||b||^2 (exact sum of squares), or the square of an entry of b / x0 / A, or a
+    product A_ij * x_j of the EXACT solution, non-zero and outside the normal f64 range [2^-1022, 2^1024).
+    Inputs with a non-finite entry are outside the quantifier: never."""
+    vals = [v for (_, _, v) in s.trip]
+    if not all(math.isfinite(v) for v in vals + list(s.b) + list(s.x0)): return False
+    if _leaves_range(sum(Fraction(v) ** 2 for v in s.b)): return True
+    if any(_leaves_range(Fraction(v) ** 2) for v in list(s.b) + list(s.x0) + vals): return True
+    x = exact_solution(s)
+    if x is not None and any(_leaves_range(abs(Fraction(v) * x[j])) for (i, j, v) in s.trip): return True
+    return False
+
+def extreme_systems(g, tier, budget_of_n):
+    """Adversarial family for the recorded finding: small well-posed systems (SPD for CG, strictly diagonally dominant for
+    the others; all five entry points over the run) with the right-hand side or the matrix scaled by 2^+-(520..700), or a
+    solution beyond the f64 range.  Yields (solver, Sys, budget, tol, kappa, fam)."""
+    kinds = ["b-tiny", "b-huge", "A-tiny", "A-huge", "x-overflow"]
+    out = []
+    for t in range(5 if tier == "quick" else 40):
+        sv = SOLVERS[t % len(SOLVERS)]
+        fam = "spd" if sv == "cg" else "sdd"
+        n = g.range(2, 5)
+        A = spd_system(g, n, True) if fam == "spd" else sdd_system(g, n, True)
+        if fam == "spd":
+            D = np.zeros((n, n))
+            for (i, j), v in A.items(): D[i, j] = v
+            kap = float(np.linalg.cond(D, 2))
+        else:
+            kap = gershgorin_kappa(A, n)
+        kind = kinds[(t + t // len(SOLVERS) + g.below(len(kinds))) % len(kinds)]
+        e = g.range(520, 700)
+        sa, sb = {"b-tiny": (0, -e), "b-huge": (0, e), "A-tiny": (-e, 0), "A-huge": (e, 0),
+                  "x-overflow": (-e, min(505, 1030 - e + g.range(0, 60)))}[kind]
+        xt = [float(g.range(1, 4)) * (1.0 if g.chance(1, 2) else -1.0) for _ in range(n)]
+        b0 = csc_mul(triplets_of(g, A, "sorted"), n, xt)             # small integers: exact
+        trip = triplets_of(g, scale_system(A, sa))
+        b = [v * 2.0 ** sb for v in b0]
+        x0 = [0.0] * n if (kind != "b-tiny" or g.chance(1, 2)) else [float(g.range(-3, 3)) for _ in range(n)]
+        s = Sys(n, n, trip, b, x0, {"fam": fam, "extreme": kind, "sa": sa, "sb": sb})
+        out.append((sv, s, budget_of_n(n), pick_tol(g, 3, 10), kap, fam))
     return out
